@@ -395,6 +395,7 @@ class Inquiry(SCSICommand):
         _r = {}
         convert.decode_bits(_sig, cls._ata_signature_bits, _r)
         result.update({"signature": _r})
+        _r = {}
         convert.decode_bits(_identify, cls._ata_identify_bits, _r)
         _gc = {}
         convert.decode_bits(_identify[:2], cls._ata_identify_gen_conf_bits, _gc)
